@@ -238,6 +238,12 @@ func chunkRange(req *http.Request) (start, end int64, _ error) {
 		}
 	}
 
+	if rangeOK && start == 0 && end == 0 && req.ContentLength == 1 {
+		// "0-0" is both how an empty range is written and the inclusive
+		// form of a single byte at offset zero. ParseRange cannot tell the
+		// two apart, but the Content-Length can.
+		end = 1
+	}
 	if rangeOK && req.ContentLength >= 0 {
 		rangeLength := end - start
 		if rangeLength != req.ContentLength {
